@@ -351,6 +351,21 @@ func init() {
 	reg("reflect.Copy", func(fr *frame, fn *ssa.Function, args []value) value {
 		in := fr.in
 		d, s := in.rvArg(args[0]), in.rvArg(args[1])
+		// reflect.Copy panics unless the element types are identical (a named byte type is not uint8)
+		elemOf := func(t types.Type) types.Type {
+			switch u := under(t).(type) {
+			case *types.Slice:
+				return u.Elem()
+			case *types.Array:
+				return u.Elem()
+			}
+			return nil
+		}
+		if de := elemOf(d.t); de != nil && !isString(s.t) {
+			if se := elemOf(s.t); se != nil && !types.Identical(de, se) {
+				reflPanic("reflect.Copy: " + de.String() + " != " + se.String())
+			}
+		}
 		dst := in.rvElems(d)
 		var src []value
 		if isString(s.t) {
